@@ -42,6 +42,8 @@ func cliScript(kind, in string) string {
 		return "add_key(keep, 1)\nset_tag(message)\n" // line protocol cannot print a point without fields
 	case "setMeas":
 		return "set_measurement(\"newm\")\n"
+	case "clearMeas":
+		return "set_measurement(\"\")\n"
 	case "setTime":
 		if in == "lineprotocol" {
 			return "default_time(ts)\n"
@@ -290,6 +292,9 @@ func replayCli(args []string) (any, error) {
 		wantMeas := map[string]string{"text": "default_name", "lineprotocol": "m1"}[v.Cfg.Input]
 		if v.Out.Meas == "new" {
 			wantMeas = "newm"
+		}
+		if v.Out.Meas == "empty" {
+			wantMeas = ""
 		}
 		if got.Meas != wantMeas {
 			bad(fmt.Sprintf("measurement %q, the script left %q", got.Meas, wantMeas))
